@@ -21,7 +21,9 @@ ROLESETS += [['cloud admin'], ['cloud admin', 'member'], ['team-\U00020bb7\u91ce
 def mk_defaults(rng):
     """-> list of (name, check_str, deprecated (old_name, old_check) or None)"""
     shape = rng.choice(['plain', 'renamed', 'split', 'changed', 'mixed'])
-    out = [('admin_required', 'role:admin', None), ('svc:plain', rng.choice(['role:member', 'rule:admin_required', '@']), None)]
+    long_cs = ' or '.join('role:some_rather_long_role_name_%d' % i for i in range(6)) + ' or role:member'
+    out = [('admin_required', 'role:admin', None), ('svc:plain', rng.choice(['role:member', 'rule:admin_required', '@']), None),
+           ('svc:long', rng.choice([long_cs, 'role:reader']), None)]
     if shape in ('renamed', 'mixed'):
         out.append(('svc:new_show', rng.choice(['role:reader', 'role:new']), ('svc:show', rng.choice(['role:old', 'role:reader']))))
     if shape in ('split', 'mixed'):
